@@ -45,6 +45,25 @@ def new_packet(*a, raw_data=b"", **k) -> DictObj:
     return d
 
 
+def construct_packet(it, *a, **k) -> DictObj:
+    """CCSDSPacket(...): the repository's own __init__ is interpreted on a fresh dict model (so that what it does
+    with raw_data - copy or share - is what the checks see); falls back to the plain model if it has none."""
+    d = DictObj(cls="CCSDSPacket")
+    init = it.prog.resolve_method("CCSDSPacket", "__init__") if "CCSDSPacket" in it.prog.classes else None
+    if init is None:
+        return new_packet(*a, **k)
+    it.call(init, [d] + list(a), dict(k))
+    if "raw_data" not in d.attrs:
+        d.attrs["raw_data"] = new_raw(k.get("raw_data", b""))
+    return d
+
+
+def _super_init(selfv, *a, **k):
+    if isinstance(selfv, dict):
+        dict.update(selfv, *a, **k)
+    return None
+
+
 def _param(base, clsname):
     def mk(value, raw_value=None):
         return base(value, cls=clsname, raw_value=(raw_value if raw_value is not None else value))
@@ -76,7 +95,8 @@ def std_externals(it_holder: List[Interp]) -> Dict[str, object]:
         "logger": logger,
         "warnings.warn": lambda *a, **k: ev("warn", a[0] if a else None),
         "new:RawPacketData": new_raw,
-        "new:CCSDSPacket": new_packet,
+        "new:CCSDSPacket": lambda *a, **k: construct_packet(it_holder[0], *a, **k),
+        "super:__init__": _super_init,
         "int.from_bytes": int.from_bytes,
         "int.to_bytes": int.to_bytes,
     }
